@@ -135,6 +135,78 @@ theorem history_update_save_reload (k : FragKind) (vps : List (Str × Str)) (hv 
     ∃ d'', parse (writeXml k d') = some d'' ∧ InfoEqDoc d'' d' :=
   reload_info_equal k d' (update_keeps_shape vps hv _ d' (history_preserves_wf es d hwf hok) h huniq)
 
+/-! ### Fragment placeholders ask like every other element
+
+A fragmented model keeps, in the parent file, a placeholder `<tag xsi:type="p:T" href="file#id"/>` for the element
+that lives in its own fragment file.  The type on the placeholder is written into the parent file, so its prefix has
+to be declared there — also when no other element of the file uses that namespace (the main `.capella` of a project
+fragmented per architecture layer).  Replayed on the implementation by `harness/props/xml_ns.py` (`ns.witness`,
+`ns.history` with placeholder edits) and on fragmented API histories by `harness/props/c02.py` (`ns.api`). -/
+
+/-- **Nothing that is asked for is missing — whoever asks.**  Every binding any element of the tree asks for is
+declared on the root after `update_namespaces`; no property of the asking element (children, attributes, an
+`href`) exempts it. -/
+theorem every_asker_declared (vps : List (Str × Str)) (d d' : Doc)
+    (h : updateNs Capella.Gen.Ns.plugins vps d = .ok d') (hd : (keysOf d.root.nsdecls).Nodup)
+    (x : Item) (hx : x ∈ iterS [] d.root) (b : Str × Str)
+    (hw : wanted Capella.Gen.Ns.plugins vps x.1 x.2.1 x.2.2 = .ok (some b)) :
+    b ∈ d'.root.nsdecls :=
+  ((update_declares_exactly vps d d' h hd).1 b).2 (Or.inr ⟨x, hx, hw⟩)
+
+/-- **The type on a fragment placeholder is declared in the file that holds the placeholder.** -/
+theorem placeholder_type_declared (vps : List (Str × Str)) (d d' : Doc)
+    (h : updateNs Capella.Gen.Ns.plugins vps d = .ok d') (hd : (keysOf d.root.nsdecls).Nodup)
+    (x : Item) (hx : x ∈ iterS [] d.root) (_hp : isPlaceholder x = true) (b : Str × Str)
+    (hw : wanted Capella.Gen.Ns.plugins vps x.1 x.2.1 x.2.2 = .ok (some b)) :
+    b ∈ d'.root.nsdecls :=
+  every_asker_declared vps d d' h hd x hx b hw
+
+/-- the main file of a project whose Operational Analysis layer lives in its own fragment: the only element of the
+`oa` package left in the file is the placeholder.  The root still declares every namespace the unfragmented
+file declared (as Capella / `harness/fragmenter.py` leave it), one of them (`zz`) unused. -/
+def layerPlaceholderDoc : Doc :=
+  ⟨[⟨"Capella_Version_5.0.0".toList, none⟩],
+   .mk (clark "http://www.polarsys.org/capella/core/modeller/5.0.0".toList "Project".toList)
+     [("xmi".toList, XMI), ("xsi".toList, XSI),
+      ("org.polarsys.capella.core.data.capellamodeller".toList, "http://www.polarsys.org/capella/core/modeller/5.0.0".toList),
+      ("org.polarsys.capella.core.data.oa".toList, "http://www.polarsys.org/capella/core/oa/5.0.0".toList),
+      ("zz".toList, "http://zz".toList)]
+     [(clark XMI "version".toList, "2.0".toList), ("id".toList, "p".toList)] none none
+     [.mk "ownedModelRoots".toList []
+        [(attXT, "org.polarsys.capella.core.data.capellamodeller:SystemEngineering".toList), ("id".toList, "se".toList)] none none
+        [.mk "ownedArchitectures".toList []
+           [(attXT, "org.polarsys.capella.core.data.oa:OperationalAnalysis".toList),
+            ("href".toList, "fragments/OA.capellafragment#oa".toList)] none none []]],
+   []⟩
+
+def layerVps : List (Str × Str) := [("org.polarsys.capella.core.viewpoint".toList, "5.0.0".toList)]
+
+/-- the root is replaced (the unused `zz` goes) and the namespace of the type that only the placeholder carries
+stays declared, with the URI of the activated viewpoint version; every type prefix of the written file is declared -/
+theorem layer_placeholder_keeps_its_namespace :
+    (match updateNs Capella.Gen.Ns.plugins layerVps layerPlaceholderDoc with
+     | .ok d' =>
+        (d'.root.nsdecls.map (·.1)) ==
+          ["org.polarsys.capella.core.data.capellamodeller".toList, "org.polarsys.capella.core.data.oa".toList,
+           "xmi".toList, "xsi".toList] &&
+        lookupNs "org.polarsys.capella.core.data.oa".toList d'.root.nsdecls
+          == some "http://www.polarsys.org/capella/core/oa/5.0.0".toList &&
+        typePrefixesDeclared Capella.Gen.Ns.plugins d' && Elem.beqL d'.root.kids layerPlaceholderDoc.root.kids
+     | .error _ => false) = true := by
+  decide +kernel
+
+/-- **Placeholders have to be scanned.**  A collection that takes the used namespaces from the non-placeholder
+elements only (one representative per type out of an index that hides placeholders) is *not* equivalent to the
+walk over the tree: on the layer-fragmented main file it loses the `oa` namespace, which the file still uses. -/
+theorem placeholders_must_be_scanned :
+    (match newNsmap Capella.Gen.Ns.plugins layerVps layerPlaceholderDoc.root,
+           newNsmapSkippingPlaceholders Capella.Gen.Ns.plugins layerVps layerPlaceholderDoc.root with
+     | .ok n, .ok n' =>
+        (lookupNs "org.polarsys.capella.core.data.oa".toList n).isSome &&
+        (lookupNs "org.polarsys.capella.core.data.oa".toList n').isNone
+     | _, _ => false) = true := by
+  decide +kernel
+
 /-! ### The boundary of the namespace theorems (witnesses, replayed on the implementation by
 `harness/props/xml_ns.py`, stream `ns.witness`) -/
 
@@ -332,5 +404,13 @@ example : VpsOk nsVps := by
   revert c
   decide
 example : TableOk Capella.Gen.Ns.plugins := live_table_ok
+/-- the placeholder of `layerPlaceholderDoc` is an element of the walk, is a placeholder, and asks for `oa` -/
+example : ∃ x ∈ iterS [] layerPlaceholderDoc.root, isPlaceholder x = true ∧
+    wanted Capella.Gen.Ns.plugins layerVps x.1 x.2.1 x.2.2 =
+      .ok (some ("org.polarsys.capella.core.data.oa".toList, "http://www.polarsys.org/capella/core/oa/5.0.0".toList)) :=
+  ⟨(iterS [] layerPlaceholderDoc.root)[2]!, by decide +kernel, by decide +kernel, by rfl⟩
+example : wfDoc layerPlaceholderDoc = true := by decide +kernel
+example : (keysOf layerPlaceholderDoc.root.nsdecls).Nodup := by decide +kernel
+
 
 end Capella.Props.C02
